@@ -178,6 +178,17 @@ def check(ctx):
                     a, b = key_fields(impl_step(rec, k)), key_fields(impl_step(f))
                     if a != b:
                         diffs.append((rec, "reuse-vs-fresh", "step %d input %r: reused %s fresh %s (Size=%s U=%s)" % (k, inp, a[:3], b[:3], rec.get("size"), rec.get("width")), True))
+    if pid == "C05":
+        # WriteSyntaxTree and PrintSyntaxTree (plain and Pretty, colour codes removed) must print what SprintSyntaxTree returns
+        for rec in data["cases"]:
+            if rec["kind"] == "history-printers" and rec["o"] == "d" and rec.get("impl"):
+                n_eval += 1
+                for k, x in enumerate(rec["impl"]):
+                    o_ = B.parse_obs(x)
+                    if o_.get("st") == "0" and o_.get("pr") not in (None, "111"):
+                        which = [nm for nm, f in zip(("WriteSyntaxTree", "PrintSyntaxTree", "PrintSyntaxTree with Pretty"), o_.get("pr", "")) if f == "0"]
+                        diffs.append((rec, "printers", "step %d input %r: %s prints another tree than SprintSyntaxTree" % (k, rec["inputs"][k], ", ".join(which)), True))
+                        break
     if pid == "C12":
         # the instantiation must not matter as long as the input fits U: grammars that record many tokens per rune
         # (token count exceeds what U can count although every offset fits)
@@ -242,6 +253,19 @@ def check(ctx):
             for a, d in core.compare_optimizer(gi):
                 rec = dict(g=gid, o="s", inputs=[""], kind="gen", cid="%s/s/opt" % gid, impl=gi["opts"]["s"].get("model"), model=gi["opts"]["d"].get("opt"), spec=None)
                 diffs.append((rec, a, d, False))
+    # Compile's first passes (structural tie, needs no input): Model/Link.v applied to the raw rule tree must give
+    # the linked tree the generator compiles, with the same action numbering and PegText slot
+    if pid == "C04":
+        nlink = 0
+        for gid, gi in data["grammars"].items():
+            oi = gi["opts"].get("d", {})
+            if oi.get("link") is None or oi.get("link_want") is None:
+                continue
+            nlink += 1
+            if oi["link"] != oi["link_want"]:
+                rec = dict(g=gid, o="d", inputs=[""], kind="gen", cid="%s/d/link" % gid, impl=oi["link_want"], model=oi["link"], spec=None)
+                diffs.append((rec, "link", "the linked tree (rule slots, references, action numbers, PegText slot) differs from Model/Link.v applied to the raw tree: implementation %s, model %s" % (oi["link_want"][:160], oi["link"][:160]), False))
+        ctx.coverage["link_compared"] = nlink
     # generator decisions (structural tie): C01 owns always-succeeds and nil slots, C02 inlining
     if pid in ("C01", "C02"):
         for gid, gi in data["grammars"].items():
